@@ -363,7 +363,12 @@ class RedisStore(MutableMapping):
         """
         Handles key invalidation messages sent by the Redis server.
         """
-        keys = message["data"]  # This will contain an array of invalidated keys.        
+        keys = message["data"]  # This will contain an array of invalidated keys.
+        if keys is None:  # Sent after FLUSHALL/FLUSHDB: nothing cached is valid.
+            self.cache.clear()
+            return
+        if not isinstance(keys, (list, tuple)):
+            return  # e.g. the "exit" message published by stop() of any instance.
         for k in keys:
             # Keys are passed as an array of binary strings, with prefixes.
             key = self._remove_prefix(k.decode("utf-8"))
